@@ -416,11 +416,12 @@ _EVENT_MAKERS.update({'tagmsg': conv.ev_tagmsg})
 
 
 C07_CLAUSES = {'node-kind', 'children-keys', 'missing-fields', 'extra-fields', 'product-actual', 'sum-arity', 'leaf-actual',
-               'duplicate-node', 'length-bounds', 'child-not-standalone'}
+               'duplicate-node', 'length-bounds', 'child-not-standalone', 'tree-depends-on-history'}
 
 
 @check('C07')
 def c07(tier: str) -> int:
+    conv._FRESH_EVERY[0] = 4 if tier == 'quick' else 1      # how often the tree is asked for again with an emptied converter cache
     return _multi_grammar('C07', tier, [
         (SCALAR_CFGS, C07_CLAUSES, conv.ev_tree, {'extra_sp': 0 if tier == 'quick' else 1}),
         (CLS_CFGS, C07_CLAUSES, conv.ev_tree, {}),
